@@ -36,8 +36,13 @@ type ValT struct{ F int }
 
 // ZT is injected by pointer under the name "Z"; no generated rule ever writes to it.
 type ZT struct {
-	Zero int
-	Five int
+	Zero   int
+	Zero8  int8
+	Zero16 int16
+	Zero32 int32
+	ZeroU  uint16
+	ZeroF  float32
+	Five   int
 	Yes  bool
 	No   bool
 }
